@@ -183,7 +183,10 @@ def _run_enum_layer(prop, layer, tier, shard, nshards, known, stats: LayerStats)
         if fresh:
             sigs = {json.dumps(f[1][0]["sig"], sort_keys=True) for f in stats.failures}
             if json.dumps(fresh[0]["sig"], sort_keys=True) not in sigs and len(stats.failures) < 5:
-                stats.failures.append((jsonable(case), fresh))
+                if out.replay is not None:
+                    stats.failures.append((jsonable(out.replay[1]), fresh, out.replay[0]))
+                else:
+                    stats.failures.append((jsonable(case), fresh))
     stats.enum_total = total
 
 
@@ -359,8 +362,9 @@ def main(argv=None):
                 s = dict(s)
                 s["layer"] = lname
                 samples.append(s)
-            for case_json, fresh in st["failures"]:
-                failures.append((lname, case_json, fresh))
+            for item in st["failures"]:
+                case_json, fresh = item[0], item[1]
+                failures.append((item[2] if len(item) > 2 else lname, case_json, fresh))
             if st["harness_error"]:
                 harness_errors.append(f"shard {r['shard']} layer {lname}: {st['harness_error']}")
             if st["enum_total"] is not None:
